@@ -620,6 +620,9 @@ class Gen:
         pad = "    " * ind
         if r < 0.45:
             self.emit(ind, f'"""Doc {n}."""')
+        elif r < 0.52:
+            self.lines.append(f'{pad}"""Doc {n}.\nflush left {n}\n  two {n}\n{pad}"""')       # string content at lower columns
+            self.features.add("less-indented-line")
         elif r < 0.6:
             self.lines.append(f'{pad}"""Doc {n}.\n\n{pad}    indented {n}\n{pad}tail {n}   \n\n{pad}"""')
         elif r < 0.7:
@@ -753,8 +756,11 @@ class Gen:
         elif r < 0.76:
             self.emit(ind, f"{n}: {self.rng.choice(['ClassVar[int]', 'typing.ClassVar[int]'])} = {v}")
             self.features.add("classvar")
-        elif r < 0.8:
+        elif r < 0.78:
             self.emit(ind, f"{n} = (\n{'    ' * ind}    {v}\n{'    ' * ind})")
+        elif r < 0.8:
+            self.emit(ind, self.rng.choice([f"{n} = (\n{v}\n)", f"{n} = [\n  {v},\n{v}]", f'{n} = """a {v}\nflush\n"""']))   # continuation at low columns
+            self.features.add("less-indented-line")
         elif self.exe:
             self.emit(ind, f"{n} = {v}")
         elif r < 0.85:
@@ -1189,6 +1195,20 @@ def dump_nopos(n, drop_decorators=False):
     return ast.dump(n, include_attributes=False)
 
 
+class _BlankStrings(ast.NodeTransformer):
+    def visit_Constant(self, n):
+        return ast.Constant(value="") if isinstance(n.value, (str, bytes)) else n
+
+
+def dump_shape(n, drop_decorators=False):
+    """Dump without positions and with every string constant blanked (dedent changes the text inside multi-line strings)."""
+    import copy
+    n = copy.deepcopy(n)
+    if drop_decorators and hasattr(n, "decorator_list"):
+        n.decorator_list = []
+    return ast.dump(_BlankStrings().visit(n), include_attributes=False)
+
+
 def walk_objects(mod):
     """(path tuple, object, parent object, body-owner kind) for every object reachable through module/class members."""
     def rec(o, path):
@@ -1287,6 +1307,26 @@ def direct_checks(case, tree, mod, rec):
                     fails.append(("span-slice", f"{where}: slice {ln}-{eln} is not the {obj.kind.value if not obj.is_alias else 'import'} definition", None))
         except SyntaxError as e:
             fails.append(("span-slice", f"{where}: slice does not parse: {e.msg}", None))
+        # ---- Object.lines / Object.source: the sliced lines, and their text without the common margin; the source still
+        #      is that very definition (string constants compared up to the margin that dedent takes out of their lines)
+        if not obj.is_alias:
+            sliced = lines[obj.lineno - 1:obj.endlineno]
+            if list(obj.lines) != sliced:
+                fails.append(("object-lines", f"{where}: lines differ from the source lines {obj.lineno}-{obj.endlineno}", None))
+            exp_src = textwrap.dedent("\n".join(sliced))
+            if obj.source != exp_src:
+                k = next((i for i, (x, y) in enumerate(zip(obj.source.split("\n"), exp_src.split("\n"))) if x != y), None)
+                fails.append(("object-source", f"{where}: source is not the dedented text of lines {obj.lineno}-{obj.endlineno} "
+                                               f"(first differing line {k}: {obj.source.split(chr(10))[k][:40] if k is not None else '<length>'!r})", None))
+            try:
+                st = obj.source
+                body = ast.parse("if 1:\n" + st).body[0].body if st[:1] in (" ", "\t") else ast.parse(st).body
+                ok = len(body) == 1 and type(body[0]) is type(node) and getattr(body[0], "name", None) == getattr(node, "name", None) and \
+                    dump_shape(body[0], obj.kind.value == "attribute") == dump_shape(node, obj.kind.value == "attribute")
+                if not ok:
+                    fails.append(("object-source", f"{where}: source does not re-parse to the {obj.kind.value} definition", None))
+            except SyntaxError as e:
+                fails.append(("object-source", f"{where}: source does not parse: {e.msg}", None))
         # ---- kind of object vs kind of statement, name bound by it
         if obj.is_alias:
             if not isinstance(node, (ast.Import, ast.ImportFrom)):
@@ -1325,6 +1365,8 @@ def direct_checks(case, tree, mod, rec):
                         fails.append(("docstring", f"{where}: text/span differ from the source", None))
             elif obj.kind.value == "attribute":
                 fails += attribute_doc_check(where, path, obj, node, tree, idx, parent)
+    if list(mod.lines) != lines or mod.source != textwrap.dedent("\n".join(lines)):
+        fails.append(("object-source", "module: lines / source differ from the source text", None))
     # module docstring
     first = tree.body[0] if tree.body else None
     exp = first.value if isinstance(first, ast.Expr) and isinstance(first.value, ast.Constant) and isinstance(first.value.value, str) else None
@@ -2324,6 +2366,7 @@ def check_structural(ctx, cases, label):
     layout_check(ctx, cases, views)
     vins = {}
     traces = []
+    sources = []            # (Object.lines, Object.source) of every object: the model's dedent must give the source
     for c, tree, view in zip(cases, trees, views):
         if len(view) != 4:
             ctx.tie_failure("correspondence", "raw module not lowered: the regenerated dispatch tables and the node payloads do not fit",
@@ -2365,6 +2408,9 @@ def check_structural(ctx, cases, label):
         ctx.observe("events", min(len(rec.calls) // 25 * 25, 300))
         traces.append((iv[5], small))
         content_check(ctx, mc, mod, small)
+        for _p, o, _q in walk_objects(mod):
+            if not o.is_alias:
+                sources.append((list(o.lines), o.source, o.path, small))
         # (O) declarative bindings vs the module level of the implementation: order of first binding, survivor
         if not mb[3]:
             names = mb[1]
@@ -2443,6 +2489,13 @@ def check_structural(ctx, cases, label):
             key = repr(v)
             if key not in vins:
                 vins[key] = (v, real_predicates(o), small, o.path)
+    outs = ctx.model([["dedent", ls] for ls, _s, _p, _c in sources])
+    for (ls, src_, path_, small_), out in zip(sources, outs):
+        ctx.count("object_sources_compared")
+        if out and out[0][:1] == " ":
+            ctx.observe("branch", "source-keeps-indentation (a less indented line in the span)")
+        if "\n".join(out) != src_:
+            ctx.tie_failure("correspondence", "dedent (Model/C01_layout.v) of Object.lines vs Object.source", {"path": path_, "model": out[:6], "impl": src_.split("\n")[:6]}, small_)
     # the recorded traces through the extracted bracket checker (the definition theorem C01_events_well_bracketed is about)
     verdicts = ctx.model([["bracket", t] for t, _c in traces])
     for (t, small), v in zip(traces, verdicts):
